@@ -418,6 +418,10 @@ type LiveCase struct {
 	Txs         bool  `json:"txs"`          // every running node submits two transactions per height
 	SameNonce   bool  `json:"same_nonce"`   // ... and re-uses the nonce of its still pending transactions (replacement attempts)
 	Target      int64 `json:"target"`       // every running node must store this height (raised to 2 past the others' height at restart)
+	// CrashFP (optional, for replays that need an exact crash point): instead of the SIGKILL at
+	// CrashAt the victim's first run is armed with this durable-write failpoint (hook H1, e.g.
+	// "mode=exit;k=11;startsite=godb.Set;startkey=H:1") and exits there by itself.
+	CrashFP string `json:"crash_fp,omitempty"`
 }
 
 type liveProc struct {
@@ -510,6 +514,11 @@ func (p *liveProc) start(base string, c LiveCase, keep string) error {
 	p.mu.Unlock()
 	cmd := liveChildCmd("C12LIVE_NODE="+p.dir, "C12LIVE_RUN="+strconv.Itoa(run), "C12LIVE_IDX="+strconv.Itoa(p.idx), "C12LIVE_PORT="+strconv.Itoa(p.port),
 		"C12LIVE_GO="+filepath.Join(base, "go"), "C12LIVE_UP="+filepath.Join(base, "up"), "C12LIVE_KEEP="+keep, "C12LIVE_TXS="+txs)
+	if c.CrashFP != "" && p.idx == c.Crash && run == 0 {
+		cmd.Env = append(cmd.Env, "VERIF_FP="+c.CrashFP)
+	} else {
+		cmd.Env = append(cmd.Env, "VERIF_FP=")
+	}
 	pr, pw := io.Pipe()
 	cmd.Stdout = pw
 	cmd.Stderr = pw
@@ -896,6 +905,7 @@ func runLiveOnce(c LiveCase, x *h.Ctx) (again bool) {
 		}
 		live = append(live, p)
 	}
+	var othersAtKill, victimAtKill int64
 	// judgeDeath reports a node process that ended on its own. It returns true when the case is over.
 	judgeDeath := func(p *liveProc, when string) bool {
 		lines := p.output()
@@ -911,6 +921,17 @@ func runLiveOnce(c LiveCase, x *h.Ctx) (again bool) {
 			// open finding of C06 (crash-atomic commit), which this leg cannot steer around because the
 			// kill point within a commit is a matter of timing. Counted, not judged again here.
 			x.Label("excluded:C06:" + liveC06Key)
+			return true
+		}
+		if p.runs > 1 && victimAtKill == 1 && strings.Contains(msg, "+2/3 committed an invalid block: Wrong Block.Header.") && h.IsKnownFor("C06", liveC06Key) {
+			// the same finding at the very first height: the state is still the genesis state, the
+			// store-height adjustment in NewBlockchainReactor lowers the store to height 0 and
+			// RecoverFromCrash returns at once ("no blocks to replay") although the application has
+			// already committed block 1. The node then obtains block 1 from its peers, executes it a
+			// second time, ends with other application / receipts hashes than the network and stops
+			// with a consensus failure at block 2.
+			x.Label("excluded:C06:" + liveC06Key + ":first-height-variant")
+			h.Note("C12", "live", "restart after a SIGKILL during the commit of height 1 (case %+v): %s", c, msg)
 			return true
 		}
 		code := -1
@@ -978,7 +999,6 @@ func runLiveOnce(c LiveCase, x *h.Ctx) (again bool) {
 		victim = procs[c.Crash]
 	}
 	var crashReached, downSince time.Time
-	var othersAtKill, victimAtKill int64
 	othersCanProgress := 3*(running-1) > 2*c.N
 	maxGap := time.Duration(0)
 	slow := false
@@ -991,6 +1011,18 @@ func runLiveOnce(c LiveCase, x *h.Ctx) (again bool) {
 				continue
 			}
 			if !p.alive() {
+				if p == victim && crashState < 2 && c.CrashFP != "" && p.cmd.ProcessState != nil && p.cmd.ProcessState.ExitCode() == 137 {
+					// the armed failpoint was the crash
+					os.Remove(filepath.Join(base, "up", strconv.Itoa(victim.idx)))
+					crashState, downSince = 2, now
+					victimAtKill = victim.storeHeight()
+					for _, q := range live {
+						if hh := q.storeHeight(); q != victim && hh > othersAtKill {
+							othersAtKill = hh
+						}
+					}
+					continue
+				}
 				judgeDeath(p, fmt.Sprintf("at store height %d", p.storeHeight()))
 				return
 			}
@@ -1000,7 +1032,7 @@ func runLiveOnce(c LiveCase, x *h.Ctx) (again bool) {
 			vh, _, _, _, _, _ := victim.snapshot()
 			switch crashState {
 			case 0:
-				if vh >= c.CrashAt {
+				if vh >= c.CrashAt && c.CrashFP == "" {
 					crashState, crashReached = 1, now
 				}
 			case 1:
